@@ -76,6 +76,7 @@ type Config struct {
 	Trace         bool
 	UnwindViolation bool // exceeding the call-depth bound is reported as a violation (label unbounded-recursion)
 	Preemptions   int // 0: Options.Preemptions
+	Delays        int // >0: delay-bounded scheduling with this bound instead of preemption bounding
 	ReplayInputs  []ReplayVal // non-nil: concrete re-execution of one input vector (no symbolic inputs)
 }
 
@@ -154,6 +155,7 @@ type pathRun struct {
 	mutexes map[*value]*muState
 	locals  []*localCtx
 	replayPos int
+	modelSets int
 	digests []digestRec
 	sites   map[string]int
 	known   map[*Term]bool // terms assumed on the global path (syntactic pruning)
@@ -174,6 +176,7 @@ func (r *pathRun) eval(t *Term) uint64 {
 }
 
 func (r *pathRun) setModel(m map[string]uint64) {
+	r.modelSets++
 	r.model = m
 	r.memo = make(map[*Term]uint64)
 }
@@ -463,7 +466,7 @@ func (e *Engine) runPath(fn *ssa.Function, it workItem, solver *Solver) {
 		// invariant: the cached model satisfies the whole path condition
 		for k, t := range r.pc {
 			if r.eval(t) == 0 {
-				panic(pathAbort{"engine-model-invalid", fmt.Sprintf("pc[%d] false under cached model: %s", k, trunc(t.String(), 300))})
+				panic(pathAbort{"engine-model-invalid", fmt.Sprintf("pc[%d] of %d false under cached model: %s (prefix %d decisions, trail %d, modelSets %d)", k, len(r.pc), trunc(t.String(), 300), len(r.prefix), len(r.trail), r.modelSets)})
 			}
 		}
 	}()
@@ -472,7 +475,7 @@ func (e *Engine) runPath(fn *ssa.Function, it workItem, solver *Solver) {
 	}
 	// an escaping panic of the target is an assertion failure of its own
 	if (outcome == "target-panic" || outcome == "target-runtime-panic") && len(r.rtPanics) > 0 {
-		detail += " [first run-time panic in " + r.rtPanics[0] + "]"
+		detail += " [last run-time panic in " + r.rtPanics[len(r.rtPanics)-1] + "]"
 	}
 	switch outcome {
 	case "target-panic", "target-runtime-panic":
@@ -566,7 +569,9 @@ func (r *pathRun) replayVals(model map[string]uint64) []ReplayVal {
 		default:
 			t := n.Terms[0]
 			v := Eval(t, mm, memo)
-			if t.W == 0 {
+			if n.Kind == "choice" {
+				rv.Int = int64(v)
+			} else if t.W == 0 {
 				rv.Int = int64(v)
 			} else if n.Kind == "uint" {
 				rv.Int = int64(v)
